@@ -231,12 +231,89 @@ Definition c05_through_code (k : br_case) : N :=
 Definition c05_prop (k : br_case) : bool :=
   negb (wf_b (r_hist k) && lib_ok_b LNone (r_hist k)) || forallb (c05_answer_ok k) (r_ans k).
 
+(* ---------------- W3 (conclusion audit): what `c05_answer_ok` leaves to the model comparison ----------------
+   The property speaks of cursors as crash points ("any New or Undo cursor delivered"), the check takes "the consumer's knowledge
+   of finality" from the cursor LIB, and the burst's items are delivered events like any other: a consumer that crashes in
+   the middle of the burst resumes from the cursor of the last item it applied.  Hence, item by item, on the consumer
+   state the fold reaches:
+   - the item's cursor names the item's block;
+   - its head is the hub's head (top of the never-disconnected consumer's stack);
+   - its LIB is the consumer's final block after the item (when the consumer holds one; for a resume-from-cursor answer
+     the resumed cursor's LIB otherwise);
+   - an Undo names the junction: the block the consumer is on when the run of Undo items it belongs to is over. *)
+Definition last_final (c : cons) : option block :=
+  match rev (finals_of c) with b :: _ => Some b | [] => None end.
+
+Fixpoint strip_undos (c : cons) (l : list event) : cons :=
+  match l with
+  | e :: l' => if step_eqb (estep e) SUndo
+               then match cons_apply c e with Some c' => strip_undos c' l' | None => c end
+               else c
+  | [] => c
+  end.
+
+Fixpoint w3_walk (kind0 : bool) (cur : cursor) (head : option ref) (c : cons) (l : list event) : bool :=
+  match l with
+  | [] => true
+  | e :: l' =>
+      match cons_apply c e with
+      | None => false
+      | Some c' =>
+          ref_eqb (ecblk e) (bref (eblk e)) &&
+          match head with Some h => ref_eqb (ehead e) h | None => true end &&
+          match last_final c' with
+          | Some b => ref_eqb (elib e) (bref b)
+          | None => negb kind0 || ref_eqb (elib e) (cu_lib cur)
+          end &&
+          (if step_eqb (estep e) SUndo then
+             match ejunc e, cs_stack (strip_undos c l) with
+             | Some j, top :: _ => ref_eqb j (bref top)
+             | Some _, [] => true
+             | None, _ => false
+             end
+           else true) &&
+          w3_walk kind0 cur head c' l'
+      end
+  end.
+
+Definition c05_answer_w3 (k : br_case) (a : ans) : bool :=
+  let all := stream_events (r_steps k) (length (r_steps k)) in
+  let evm := stream_events (r_steps k) (N.to_nat (a_m a)) in
+  match cons_fold cons0 (firstn (S (N.to_nat (a_k a))) all), cons_fold cons0 evm with
+  | Some ck0, Some cm =>
+      let ck := mkCons (cs_stack ck0)
+                       (length (filter (fun b => bnum b <=? rn (cu_lib (a_cur a))) (cs_stack ck0))) true in
+      let head := match cs_stack cm with top :: _ => Some (bref top) | [] => None end in
+      if negb (a_served a) then true else
+      match cu_step (a_cur a) with
+      | SNew | SUndo =>
+          if a_kind a =? 0 then w3_walk true (a_cur a) head ck (a_events a)
+          else if a_kind a =? 1 then
+            if (a_start a <=? junction_num (cs_stack ck) (cs_stack cm)) then
+              w3_walk false (a_cur a) head cons0
+                (filter (fun e => negb (step_eqb (estep e) SIrr && (bnum (eblk e) <? a_start a))) (a_events a))
+            else true
+          else true
+      | SIrr | SNewIrr =>
+          (* final-only variant: each irreversible item's cursor names the item's block and carries it as LIB *)
+          if a_kind a =? 0 then
+            forallb (fun e => negb (matches_irr (estep e)) ||
+                              (ref_eqb (ecblk e) (bref (eblk e)) && ref_eqb (elib e) (bref (eblk e)))) (a_events a)
+          else true
+      | _ => true
+      end
+  | _, _ => true
+  end.
+
+Definition c05_prop_w3 (k : br_case) : bool :=
+  negb (wf_b (r_hist k) && lib_ok_b LNone (r_hist k)) || forallb (c05_answer_w3 k) (r_ans k).
+
 Definition br_panicked (k : br_case) : bool :=
   existsb a_panic (r_ans k) || existsb (fun o => result_eqb (o_result o) RPanic) (r_steps k).
 
 Definition c05_verdict (k : br_case) : N :=
   if br_panicked k then 4 else
-  let base := (if br_corresponds k then 0 else 1) + (if c05_prop k && negb (c05_through_code k =? 2) then 0 else 2) in
+  let base := (if br_corresponds k then 0 else 1) + (if c05_prop k && c05_prop_w3 k && negb (c05_through_code k =? 2) then 0 else 2) in
   if (base =? 0) && (c05_through_code k =? 6) then 6 else base.
 Definition c05_verdicts (l : list br_case) := nonzero (map c05_verdict l).
 Definition c05_in_scope (k : br_case) : bool :=
